@@ -265,6 +265,14 @@ def _assignify(body: list[ast.stmt], target: ast.AST | None) -> list[ast.stmt] |
                 out.append(_mk_if(st.test, b, r))
                 return out
             return None
+        if isinstance(st, ast.Try) and _returns_in([st]) and not st.finalbody and rest and not _returns_in(st.body) and not _returns_in(st.orelse) \
+                and all(_ends(h.body) for h in st.handlers):
+            # try: B  except: <return/raise>  ; REST   ==   try: B  except: <...>  else: REST   (handlers never fall through)
+            moved = ast.Try(st.body, st.handlers, list(st.orelse) + list(rest), [])
+            r = _assignify([moved], target)
+            if r is None:
+                return None
+            return out + r
         if isinstance(st, ast.Try) and _returns_in([st]) and not st.finalbody and not rest:
             # every part of a trailing try is rewritten on its own
             tb = _assignify(st.body, target)
@@ -442,7 +450,7 @@ class _Inliner:
             arg_names = {n.id for a in list(call.args) + [k.value for k in call.keywords] for n in ast.walk(a) if isinstance(n, ast.Name)}
             target_names -= arg_names
         for n in assigned:
-            if n not in mapping and n not in target_names:
+            if n not in mapping:
                 mapping[n] = ast.Name(f"{n}{tag}", ast.Load())
         ren = _Rename(mapping)
         hbody = [ren.visit(s) for s in hbody]
@@ -772,6 +780,14 @@ def normalize_repo(repo: Repo) -> dict[str, object]:
         for fn in all_fns:
             spellings: dict[str, FunctionInfo] = dict(helpers_mod)
             if fn.cls is not None:
+                # new helper methods inherited from a base class in the same module (a new mixin / common base)
+                for base in repo.mro(fn.cls)[1:]:
+                    if base.module is not mi:
+                        continue
+                    for m in base.methods.values():
+                        if m.qualname not in known_funcs and m.name != "__init__" and not m.name.startswith("__") and _plain(m) and m.name not in fn.cls.methods \
+                                and not any(m.name in c.methods for c in repo.mro(fn.cls)[1:repo.mro(fn.cls).index(base)]):
+                            spellings[f"self.{m.name}"] = m
                 for m in fn.cls.methods.values():
                     if m.qualname not in known_funcs and m is not fn and m.name != "__init__" and _plain(m):
                         spellings[f"self.{m.name}"] = m
